@@ -257,13 +257,17 @@ CLAIMED = {
              "any creation order, blocked data is offered by the next serve after the limit is raised; counterexample theorems for "
              "the pre-fix behaviours and for non-monotone transport parameters. Tie: every call of the modelled methods of a real "
              "QuicConnection (after a real handshake; puppet peer with the real keys, two real endpoints on the adversarial network, "
-             "0-RTT) replayed on the compiled model; wire oracle against the limits the sender had received.",
+             "0-RTT incl. servers answering with smaller parameters after accepting or rejecting the early data) replayed on the "
+             "compiled model; wire oracle against the limits the sender had received.",
         note="Trusted: Lean kernel; standard axioms; harness/impl_flow.py (method wrapping for observation); hypotheses: transport "
-             "parameters do not reduce remembered limits (RFC 9000 7.4.1; not checked by the code: cannot be derived - the real "
-             "client lowers its limits when a server answers an accepted 0-RTT attempt with smaller parameters, open finding "
-             "C06-0rtt-lowered-parameters exhibited by ./check C06; derived instead: MAX_* frames never lower a limit over all op "
-             "sequences (remote_limits_monotone), the hypothesis is exactly 'transportParams does not lower' (tp_hypothesis_iff) and "
-             "it holds by itself without 0-RTT resumption (invariant_single_handshake)), delivery reports only for "
+             "parameters: none for a server that accepted 0-RTT (the code compares the six parameters with the remembered values and "
+             "closes with PROTOCOL_VIOLATION, fix a04e648; invariant_resumed_accepted, reduced_params_refused; the pre-fix behaviour is "
+             "the quirk acceptReducedParams with tp_reduction_counterexample / tp_stream_reduction_counterexample) nor without "
+             "resumption (invariant_single_handshake); MAX_* frames never lower a limit over all op sequences "
+             "(remote_limits_monotone); remaining hypothesis tp.monotone only for the handshake parameters of a server that "
+             "REJECTED 0-RTT, where the code assigns without comparison and resets nothing (tp_rejected_counterexample; the real "
+             "client then exceeds the server's new limits or stalls: recorded finding C06-0rtt-rejected-limits with fix diff); "
+             "delivery reports only for "
              "non-blocked streams and (ghost_invariant, emitted_within_stream_limit incl. FIN-only frames, retransmit_free) naming a "
              "frame emitted for that stream and not yet reported - the C10 hypothesis, under which every stream's send half is "
              "connected to the C10 sender invariant (AQ.Stream.SInv); the check validates it on every real trace. Documented "
